@@ -339,8 +339,15 @@ def b_tv(cfg):
 
 def b_jac(cfg):
     """Jacobian operator of a non-linear Operator (linop.jacobian): adj_fn = conjugated vjp"""
-    import jax.numpy as jnp
     from scico.linop import jacobian
+
+    F, u = jac_parts(cfg)
+    return jacobian(F, u)
+
+
+def jac_parts(cfg):
+    """the non-linear Operator and the point of a Jacobian configuration"""
+    import jax.numpy as jnp
     from scico.operator import Operator
 
     rng = _rng(cfg)
@@ -355,7 +362,7 @@ def b_jac(cfg):
     else:
         f = lambda x: (W @ x) * (W @ x)[::-1]
     F = Operator(input_shape=(n,), output_shape=(m,), eval_fn=f, input_dtype=dt, output_dtype=dt)
-    return jacobian(F, u)
+    return F, u
 
 
 # derived forms -----------------------------------------------------------------------------------------
